@@ -234,12 +234,233 @@ impl Workload for CorpusTrivia {
     }
 }
 
+/// Hand-written corpus programs under concrete-syntax rewrites: the sites come from the implementation's own
+/// syntax tree and token list (statement spans, term spans, identifier tokens), the rewrites are text edits.
+pub struct CorpusRewrites {
+    pub variants: u64,
+}
+
+struct CstInfo {
+    /// (start, end, is_use) of the top-level statements, in source order
+    stmts: Vec<(usize, usize, bool)>,
+    /// spans of terms
+    terms: Vec<(usize, usize)>,
+    /// spellings bound by a plain (non-@) declaration
+    decl_names: Vec<String>,
+    /// (start, end) of identifier tokens
+    idents: Vec<(usize, usize)>,
+}
+
+fn cst_info(text: &str) -> Option<CstInfo> {
+    use oal_compiler::tree::Core;
+    use oal_model::grammar::AbstractSyntaxNode;
+    use oal_syntax::parser as syn;
+    let (tree, errs) = oal_syntax::parse::<_, Core>(crate::oracle::syntax::loc(), text);
+    if !errs.is_empty() {
+        return None;
+    }
+    let tree = tree?;
+    let mut info = CstInfo {
+        stmts: vec![],
+        terms: vec![],
+        decl_names: vec![],
+        idents: vec![],
+    };
+    let sp = |n: oal_model::grammar::NodeRef<Core, syn::Gram>| n.span().map(|s| (s.start(), s.end()));
+    for node in tree.root().descendants() {
+        if syn::Import::<Core>::cast(node).is_some() {
+            let (a, b) = sp(node)?;
+            info.stmts.push((a, b, true));
+        } else if let Some(d) = syn::Declaration::<Core>::cast(node) {
+            let (a, b) = sp(node)?;
+            info.stmts.push((a, b, false));
+            if !d.ident().is_reference() {
+                info.decl_names.push(d.ident().as_ref().to_owned());
+            }
+        } else if syn::Resource::<Core>::cast(node).is_some() {
+            let (a, b) = sp(node)?;
+            info.stmts.push((a, b, false));
+        } else if syn::Terminal::<Core>::cast(node).is_some() {
+            if let Some(r) = sp(node) {
+                info.terms.push(r);
+            }
+        }
+    }
+    let (toks, _, _) = crate::oracle::syntax::check_tokens(text);
+    for t in toks {
+        if t.kind == oal_syntax::lexer::TokenKind::IdentifierValue {
+            info.idents.push((t.start, t.end));
+        }
+    }
+    info.stmts.sort();
+    Some(info)
+}
+
+/// One concrete-syntax rewrite of `src`; None if it has no site.
+fn corpus_rewrite(src: &Sources, rng: &mut Rng) -> Option<(Sources, &'static str)> {
+    let mut v = src.clone();
+    match rng.below(4) {
+        0 => {
+            for f in v.files.iter_mut() {
+                f.1 = trivia_text(&f.1, rng);
+            }
+            Some((v, "insert-trivia"))
+        }
+        1 => {
+            // parenthesise one term
+            let fi = rng.below(v.files.len());
+            let info = cst_info(&v.files[fi].1)?;
+            if info.terms.is_empty() {
+                return None;
+            }
+            let (a, b) = *rng.pick(&info.terms);
+            let t = &v.files[fi].1;
+            // a term may end in a line comment only through trivia, which is outside its span
+            v.files[fi].1 = format!("{}({}){}", &t[..a], &t[a..b], &t[b..]);
+            Some((v, "parenthesise"))
+        }
+        2 => {
+            // permute the statements of one module; `use` lines keep their relative order
+            let fi = rng.below(v.files.len());
+            let info = cst_info(&v.files[fi].1)?;
+            if info.stmts.len() < 2 {
+                return None;
+            }
+            let t = v.files[fi].1.clone();
+            let mut segs: Vec<(String, bool)> = Vec::new();
+            let mut prev = 0;
+            for (_, e, is_use) in &info.stmts {
+                segs.push((t[prev..*e].to_owned(), *is_use));
+                prev = *e;
+            }
+            let tail = t[prev..].to_owned();
+            let uses: Vec<String> = segs.iter().filter(|s| s.1).map(|s| s.0.clone()).collect();
+            let mut rest: Vec<String> = segs.iter().filter(|s| !s.1).map(|s| s.0.clone()).collect();
+            rng.shuffle(&mut rest);
+            let mut at = 0;
+            for u in uses {
+                at = rng.range(at, rest.len());
+                rest.insert(at, u);
+                at += 1;
+            }
+            let mut out = String::new();
+            for r in rest {
+                out.push_str(&r);
+                out.push('\n');
+            }
+            out.push_str(&tail);
+            v.files[fi].1 = out;
+            Some((v, "permute-statements"))
+        }
+        _ => {
+            // rename one declared spelling everywhere to a fresh one
+            let mut names: Vec<String> = Vec::new();
+            let mut infos = Vec::new();
+            for f in &v.files {
+                let i = cst_info(&f.1)?;
+                names.extend(i.decl_names.iter().cloned());
+                infos.push(i);
+            }
+            names.sort();
+            names.dedup();
+            if names.is_empty() {
+                return None;
+            }
+            let old = rng.pick(&names).clone();
+            let mut new = format!("zq{}", rng.below(100_000));
+            while v.files.iter().any(|f| f.1.contains(&new)) {
+                new.push('x');
+            }
+            for (f, i) in v.files.iter_mut().zip(infos.iter()) {
+                let mut out = String::new();
+                let mut prev = 0;
+                for (a, b) in &i.idents {
+                    if f.1[*a..*b] == old {
+                        out.push_str(&f.1[prev..*a]);
+                        out.push_str(&new);
+                        prev = *b;
+                    }
+                }
+                out.push_str(&f.1[prev..]);
+                f.1 = out;
+            }
+            Some((v, "rename-spelling"))
+        }
+    }
+}
+
+impl Workload for CorpusRewrites {
+    fn len(&self) -> u64 {
+        super::explore::corpus().len() as u64 * self.variants
+    }
+    fn case_json(&self, seed: u64, idx: u64) -> Value {
+        json!({"seed": seed, "index": idx, "program": super::explore::corpus()[(idx / self.variants) as usize].0})
+    }
+    fn run(&self, seed: u64, idx: u64, st: &mut Stats) -> Vec<Violation> {
+        let (name, src) = &super::explore::corpus()[(idx / self.variants) as usize];
+        let Ok(d0) = doc_of(src) else {
+            st.inc("corpus_program_not_accepted_skipped");
+            return vec![];
+        };
+        let d0 = canon(&d0);
+        let mut rng = Rng::for_case(seed, "c05corpusrw", idx);
+        let mut cur = src.clone();
+        let mut trail: Vec<&'static str> = Vec::new();
+        let steps = rng.range(1, 4);
+        for _ in 0..steps {
+            let Some((next, what)) = corpus_rewrite(&cur, &mut rng) else {
+                st.inc("corpus_rewrite_no_site");
+                continue;
+            };
+            trail.push(what);
+            st.inc(&format!("corpus_rewrite:{what}"));
+            match doc_of(&next) {
+                Ok(d) if first_diff(&canon(&d), &d0).is_none() => {}
+                Ok(d) => {
+                    return vec![Violation::new(
+                        "a meaning-preserving rewrite of a corpus program changed the emitted document",
+                        json!({"signature": format!("C05 corpus {what} changes document:{}", first_diff(&canon(&d), &d0).map(|x| diff_class(&x.0)).unwrap_or_default()), "program": name, "rewrites": trail, "original_sources": src.to_json(), "rewritten_sources": next.to_json()}),
+                    )]
+                }
+                Err(class) => {
+                    return vec![Violation::new(
+                        "a meaning-preserving rewrite of a corpus program broke acceptance",
+                        json!({"signature": format!("C05 corpus {what} breaks acceptance:{class}"), "program": name, "rewrites": trail, "original_sources": src.to_json(), "rewritten_sources": next.to_json()}),
+                    )]
+                }
+            }
+            cur = next;
+        }
+        if trail.len() >= 2 {
+            st.nontrivial(hash64(&(&cur.files, &trail)));
+        }
+        vec![]
+    }
+    fn run_json(&self, case: &Value, st: &mut Stats) -> Vec<Violation> {
+        if let (Some(a), Some(b)) = (case.get("original_sources"), case.get("rewritten_sources")) {
+            let (da, db) = (doc_of(&Sources::from_json(a)), doc_of(&Sources::from_json(b)));
+            return match (da, db) {
+                (Ok(x), Ok(y)) if first_diff(&canon(&x), &canon(&y)).is_none() => vec![],
+                _ => vec![Violation::new("rewritten sources still differ", json!({"signature": "C05 replay"}))],
+            };
+        }
+        self.run(case["seed"].as_u64().unwrap_or(1), case["index"].as_u64().unwrap_or(0), st)
+    }
+    fn chunk(&self) -> u64 {
+        50
+    }
+}
+
 pub fn run(ctx: &Ctx) -> i32 {
     let mut acc = Acc::new(ctx);
     let ct = CorpusTrivia {
         variants: if ctx.quick() { 8 } else { 200 },
     };
     acc.pool(&ct, "c05corpus", true);
+    let cr = CorpusRewrites {
+        variants: if ctx.quick() { 16 } else { 400 },
+    };
+    acc.pool(&cr, "c05corpusrw", true);
     let wl = Rewrites {
         n: if ctx.quick() { 12_000 } else { 300_000 },
     };
